@@ -17,6 +17,7 @@ import (
 
 	"github.com/openebs/jiva/replica"
 	"github.com/openebs/jiva/types"
+	"github.com/openebs/jiva/util"
 	"github.com/openebs/sparse-tools/sparse"
 	"github.com/sirupsen/logrus"
 
@@ -230,6 +231,12 @@ func VictimMain(args []string) {
 		case "SetRev":
 			n := int64(atoi(f[1]))
 			run = func() error { return srv.SetRevisionCounter(n) }
+		case "SetLog":
+			// the setlogging action (and every replica start) rewrites log.info in the replica directory
+			if err := util.WriteLogInfo(dir, setLogOld); err != nil {
+				setupFail("log.info", err)
+			}
+			run = func() error { return util.SetLogging(dir, setLogNew) }
 		case "Reload":
 			// Reload turns hole punching on and queues punches for blocks that a newer file shadows; the puncher runs on
 			// its own goroutine.  The operation is taken to include them: wait (inside the window) until the queue is
